@@ -159,6 +159,36 @@ impl<'q, C: MlsConfig, E: ExtConfig> Tap<C> for ObsTap<'q, E> {
                 }
             }
         }
+        // application content framed as a PublicMessage, signed and MACed by a current member (insider): the wire-format test of
+        // `check_metadata` is then the only thing that stops it, for observers and members alike
+        if rng.chance(1, 2) {
+            if let Ok(pm) = g.verif_public_application_message(b"plain".to_vec(), vec![]) {
+                let epoch = g.current_epoch();
+                for o in self.obs.iter_mut().filter(|o| !o.lost) {
+                    let obs_epoch = o.group.group_context().epoch;
+                    let r = std::panic::catch_unwind(std::panic::AssertUnwindSafe(|| o.group.process_incoming_message(pm.clone())));
+                    self.deliveries += 1;
+                    match r {
+                        Err(_) => out.push(fail("observer panicked on application content in a PublicMessage".into())),
+                        Ok(res) => {
+                            self.qa.put(&format!("adm {obs_epoch} {} 1 {epoch} app pub", o.jitter), if res.is_ok() { "ok" } else { "err" });
+                            if res.is_ok() {
+                                out.push(fail(format!("observer (jitter {}) accepted application content sent as a PublicMessage", o.jitter)));
+                            }
+                        }
+                    }
+                }
+                for &m in active.iter().skip(1).take(2) {
+                    let mut gm = w.group(m).clone();
+                    let me = gm.current_epoch();
+                    let r = gm.process_incoming_message(pm.clone());
+                    self.qa.put(&format!("adm {me} - 1 {epoch} app pub"), if r.is_ok() { "ok" } else { "err" });
+                    if r.is_ok() {
+                        out.push(fail("a member accepted application content sent as a PublicMessage".into()));
+                    }
+                }
+            }
+        }
         // attach a new observer at this epoch
         if self.obs.len() < 6 && rng.chance(1, 2) {
             let epoch = g.current_epoch();
